@@ -462,7 +462,14 @@ fn main() {
     rep.sample(pc.last().cloned().unwrap_or(json!(null)));
     let nf = fix.load(std::sync::atomic::Ordering::Relaxed);
     let ns = searches.load(std::sync::atomic::Ordering::Relaxed);
-    rep.set("searches", json!({"run": ns, "reached_fixpoint": nf, "max_depth_seen": maxd.load(std::sync::atomic::Ordering::Relaxed), "per_search": pc}));
+    // the evidence file lists the 100 largest searches and every search cut by the depth bound (at
+    // most 100 of them), not all of them: the thorough tier runs more than 100 000 searches
+    let total_states: u64 = pc.iter().map(|v| v["distinct_states"].as_u64().unwrap_or(0)).sum();
+    let mut cut: Vec<Value> = pc.iter().filter(|v| v["fixpoint"] == json!(false)).take(100).cloned().collect();
+    pc.sort_by_key(|v| std::cmp::Reverse(v["distinct_states"].as_u64().unwrap_or(0)));
+    pc.truncate(100);
+    pc.append(&mut cut);
+    rep.set("searches", json!({"run": ns, "reached_fixpoint": nf, "max_depth_seen": maxd.load(std::sync::atomic::Ordering::Relaxed), "distinct_states_summed": total_states, "per_search_listed": "the 100 searches with the most distinct states, then up to 100 searches cut by the depth bound", "per_search": pc}));
     if nf < ns {
         rep.cap(&format!("{} of {} searches were cut by the depth bound {} (all histories up to that depth were explored)", ns - nf, ns, depth));
     }
